@@ -7,7 +7,8 @@
    op's activation (sc2 = what agents called by a nested activation do); statements marked "any ex"
    hold for every executor. *)
 From Coq Require Import ZArith List Bool Permutation.
-From Mesa Require Import Common.ListX Model.Activation Proofs.ActivationProofs.
+From Mesa Require Import Common.ListX Generated.Tables Model.Activation Model.ActivationCode
+                         Proofs.ActivationProofs Proofs.ActivationBridge.
 Import ListNotations.
 Open Scope Z_scope.
 
@@ -170,6 +171,70 @@ Theorem C04_args_passthrough : forall args a log,
 Proof. exact obs_log_cons. Qed.
 Print Assumptions C04_args_passthrough.
 
+(* ------------------------------------------------------------------ code-level T1 *)
+(* gen_do_fn, gen_shuffle_do_fn, gen_map_fn (and the GroupBy records) are regenerated from mesa/agent.py
+   on every run; run_fn executes such a record on the model state.  The check evaluates the translated
+   branch condition and liveness guard on all boolean inputs, the iterated source (weak keyrefs snapshot /
+   private shuffled copy), the call form and the argument forwarding. *)
+Theorem C04_source_functions_ok : forallb (fun kf => fn_ok (fst kf) (snd kf)) source_fns = true.
+Proof. exact source_fns_ok. Qed.
+Print Assumptions C04_source_functions_ok.
+
+Theorem C04_source_groupby_ok :
+  gfn_ok false gen_groupby_do_fn && gfn_ok true gen_groupby_map_fn && gen_groupby_count_agg_skeleton_ok = true.
+Proof. exact source_groupby_ok. Qed.
+Print Assumptions C04_source_groupby_ok.
+
+(* the source functions, run on the model state, are the model's activations *)
+Theorem C04_source_is_activation : forall k f,
+  In (k, f) source_fns ->
+  forall ex sc is_str perm snap s, run_fn ex sc f is_str perm snap s = activate ex k perm sc snap s.
+Proof. exact source_is_activation. Qed.
+Print Assumptions C04_source_is_activation.
+
+(* by name when method is a str, as a callable otherwise; *args and **kwargs forwarded; self / list returned *)
+Theorem C04_source_calls : forall k f,
+  In (k, f) source_fns ->
+  forall is_str, al_call (pick f is_str) = (if is_str then CallByName else CallCallable) /\
+                 al_fwd_args (pick f is_str) = true /\ al_fwd_kwargs (pick f is_str) = true /\
+                 af_ret f = match k with KMap => RetList | _ => RetSelf end.
+Proof. exact source_calls. Qed.
+Print Assumptions C04_source_calls.
+
+(* the headline, about the translated code: do / shuffle_do / map of the working tree call nobody twice,
+   call exactly the members whose turn is reached alive, and only members at call start *)
+Theorem C04_exactly_once_of_source : forall k f,
+  In (k, f) source_fns ->
+  forall sc2 ops r snap is_str perm sc s' log rz order,
+    lookup r (sets (reached ops)) = Some snap ->
+    run_fn (ex1 sc2) sc f is_str perm snap (reached ops) = Some (s', log, rz) ->
+    visit_order k perm snap = Some order ->
+    NoDup log /\
+    (forall a, In a log <->
+               exists s1, turn_state (ex1 sc2) sc order (push_frame (reached ops)) a = Some s1 /\ alive s1 a = true) /\
+    (forall a, In a log -> In a snap /\ a < next_id (reached ops)).
+Proof. exact source_exactly_once. Qed.
+Print Assumptions C04_exactly_once_of_source.
+
+Theorem C04_all_called_of_source : forall k f,
+  In (k, f) source_fns ->
+  forall sc2 ops r snap is_str perm sc s' log rz order,
+    lookup r (sets (reached ops)) = Some snap -> (forall a, In a snap -> In a (reg (reached ops))) ->
+    run_fn (ex1 sc2) sc f is_str perm snap (reached ops) = Some (s', log, rz) ->
+    visit_order k perm snap = Some order ->
+    (forall a, spares sc a) -> calm sc -> log = order /\ rz = false.
+Proof. exact source_all_called. Qed.
+Print Assumptions C04_all_called_of_source.
+
+(* Agent.__init__ / register_agent and Agent.remove / deregister_agent, statement by statement in the
+   order extracted from mesa/model.py (tables of the C02 builder), are the model's create1 / deregister *)
+Theorem C04_source_registry :
+  gen_agent_first_id = next_id init_st /\ gen_remove_suppresses_keyerror = true /\
+  (forall a s, Inv s -> BT s -> dereg_run a gen_deregister_order s = deregister a s) /\
+  (forall c keep s, Inv s -> create_stmts gen_register_order c keep s = create1 c keep s).
+Proof. exact source_registry. Qed.
+Print Assumptions C04_source_registry.
+
 (* ------------------------------------------------------------------ non-vacuity *)
 Definition ex_ops : list op :=
   [OAct (Create 0 3 false); OAct (Create 1 2 false); OAct (RemoveId 4 true); ONewSet [5; 4; 2; 1; 9; 2]].
@@ -242,3 +307,23 @@ Proof. eexists. vm_compute. reflexivity. Qed.
 
 Example C04_example_args : obs_log [7; 8] [5; 4; 1] = [5; 7; 8; 4; 7; 8; 1; 7; 8].
 Proof. reflexivity. Qed.
+
+(* the translated do, by name and as a callable, on the example state; and what a STRONG snapshot
+   (list(self._agents.keys())) would do instead: agent 2, removed and unreferenced, is still called -
+   such a record fails the check *)
+Example C04_example_source_run :
+  (exists s', run_fn (ex1 []) ex_sc gen_do_fn true [] [5; 4; 2; 1] (reached ex_ops) = Some (s', [5; 4; 1], false)) /\
+  (exists s', run_fn (ex1 []) ex_sc gen_shuffle_do_fn false [2; 1; 5; 4] [5; 4; 2; 1] (reached ex_ops) = Some (s', [2; 1; 5; 4], false)) /\
+  let strong := {| af_test := af_test gen_do_fn;
+                   af_then := {| al_src := SrcStrong; al_guard := fun _ => true; al_call := CallByName; al_fwd_args := true; al_fwd_kwargs := true |};
+                   af_else := af_else gen_do_fn; af_ret := RetSelf |} in
+  fn_ok KDo strong = false /\
+  exists s', run_fn (ex1 []) ex_sc strong true [] [5; 4; 2; 1] (reached ex_ops) = Some (s', [5; 4; 2; 1], false).
+Proof. split; [|split; [|split]]; try (eexists; vm_compute; reflexivity). Qed.
+
+Example C04_example_source_registry :
+  dereg_run 5 gen_deregister_order (reached ex_ops) = deregister 5 (reached ex_ops) /\
+  reg (deregister 5 (reached ex_ops)) = [1; 2; 3] /\
+  create_stmts gen_register_order 2 true (reached ex_ops) = create1 2 true (reached ex_ops) /\
+  lookup (SType 2) (sets (create1 2 true (reached ex_ops))) = Some [6].
+Proof. vm_compute. repeat split. Qed.
